@@ -192,6 +192,9 @@ func (x *Exec) preludeText() (string, error) {
 	for _, l := range cx.litDecls() {
 		b.WriteString(l + "\n")
 	}
+	if n, ok := cx.lits[""]; ok && cx.uf["s_hist"] != "" {
+		fmt.Fprintf(&b, "(assert (= (s_hist %s) o_nil))\n", n)
+	}
 	b.WriteString(specs)
 	for _, l := range lemmas {
 		b.WriteString(l + "\n")
